@@ -26,9 +26,11 @@ def first_index(s):
     return int(m.group(1)) if m else None
 
 def standard(ctx, props, harness=None, obl=None, cases=None, trusted=(), assumptions=(), unproved=None,
-             pkg="cmd/keymasterd", race=False, checker=None, timeout=1500, env=None, extra_gen=(), extra_overlay=None):
+             pkg="cmd/keymasterd", race=False, checker=None, timeout=1500, env=None, extra_gen=(), extra_overlay=None, post_cases=None):
     """props: list of (module, [theorems]); harness: (test name, [files]); obl: (file, [names]);
-       cases: (file, [(definition name, label)], idx file or None)"""
+       cases: (file, [(definition name, label)], idx file or None)
+       post_cases(ctx, res): called with the printed definitions of the case file (name -> text) after the
+       mismatch lists were read, e.g. to turn `cxx_violating` indices into oracle hits"""
     for mod, thms in props:
         ctx.audit(mod, thms)
     gen = ctx.extract()
@@ -61,6 +63,8 @@ def standard(ctx, props, harness=None, obl=None, cases=None, trusted=(), assumpt
                         if i < len(lines):
                             first = lines[i]
                     ctx.broken.append(("correspondence", name, {"label": label, "first_mismatch": first, "indices": (mism or "")[:400]}))
+            if post_cases:
+                post_cases(ctx, res)
     ctx.assumptions = list(assumptions)
     return ctx.finish(checker or ("bin/build-coq; coqc Audit_*/Obl_*/Cases* (lib/core.py); go test -overlay " + (harness[0] if harness else "")),
                       COMMON_TRUSTED + list(trusted), unproved)
